@@ -123,6 +123,19 @@ SUPERSEDED.update({
     "C15-c": "the chunk-size line parser it changes was rewritten by fix e775508 (a line with CR/LF is malformed), so the patch no longer applies; on the tree before that fix it was caught by C15-R6. The same idea on today's tree is mutants/C15/m22*.diff.",
     "C17-i": "the keep-or-evict block it restructures was rewritten by fix e37b94d (idle cached connections stay in Sync mode), so the patch no longer applies; evaluated on the tree before that fix: silent with the inventory guard on and off. Its ideas on today's tree are mutants/C17/b05…b09 (all silent).",
 })
+# round 7: breaking changes made of two cooperating sites (seeds m) — first verdicts in seeded/round7_first_verdicts.json
+MISSED_FIRST.update({
+    "C02-m": "UDP: closeNow drops the peer route only `if (routed)`, viaDo takes the route unconditionally but sets routed = !peerExists (a closed via-session keeps the route: data after close) — missed by C02 (C06-R5/R6 report it when C06 is run on it); caught after C02 ran the same two rules as C02-R10",
+    "C05-m": "Transport::stop() returns early when !isRunning() (a second concurrent stopper no longer waits in the engine's stop()) — missed; caught after the clause 'the engine's stop() is called on every returning path; only existence tests may bypass it' was added to C05-R6",
+    "C09-m": "spawn only when queued + busy > workers, and --_busyThreads moved before the task object's destruction (a task submitted from a capture's destructor gets no worker) — missed; caught after C09 judged what the spawn decision reads (see check.rules_fired)",
+})
+IMPRECISE_FIRST.update({
+    "C03-m": "reported by C03-R4 at every return of receiveSync (the read-cursor representation of the buffer is not modelled); the flush loop that replays the consumed prefix is not named — left as it is",
+    "C20-m": "first reported by C20-R4 as a string comparison of paths (`find` on a map whose mapped type is a path) and refused by C20-R3; PathFlow now has a term for remembered paths and C20-R3 reports the memo hit that skips resolution and containment",
+})
+REFUSED_ONLY.update({
+    "C14-m": "open-element names kept back to back in one string plus a vector of offsets, end tag compared over name.size() bytes only: C14-R2 finds no element stack and REFUSES (exit 2) — not passed, not reported as a violation",
+})
 # round 4: behaviour-preserving refactorings (seeds h, i) — what the first run of the check said about them (seeded/round4_first_verdicts.json)
 _R4 = json.load(open(os.path.join(DST, "round4_first_verdicts.json"))) if os.path.exists(os.path.join(DST, "round4_first_verdicts.json")) else {}
 BENIGN_FIRST = {}
